@@ -219,7 +219,7 @@ def catalogue(tier):
     core2 = ["map_inc", "filter_even", "acc_add", "slice_1_none_2", "slice_0_2_1", "partition_2",
              "partition_2_mod2", "punique_2_mod2_first", "punique_2_id_last", "sliding_2_partial",
              "sliding_2_full", "unique", "unique_max1", "unique_list_max1", "flatten", "map_pair",
-             "pluck_1", "collect", "starmap_add2", "map_rep", "acc_add_ws"]
+             "pluck_1", "pluck_list1", "collect", "starmap_add2", "map_rep", "acc_add_ws"]
     if tier == "quick":
         progs += [c for c in chains(2, core2) if c[0].count(">") == 1]
     else:
